@@ -4,11 +4,21 @@
 //! contour+component and non-export glyphs) the REAL compiler is run in-process under all 16 subsets
 //! of {FLATTEN_COMPONENTS, DECOMPOSE_COMPONENTS, DECOMPOSE_TRANSFORMED_COMPONENTS, PREFER_SIMPLE_GLYPHS}
 //! and, when the source has non-export glyphs, once more per subset with every glyph exported.
-//! The property predicate is evaluated directly on the binaries: every exported glyph, drawn with skrifa
-//! at every master location, must equal the harness's own resolution of the source glyph (contours up
-//! to start point, orientation only where a negative determinant is involved, points within one unit per
-//! nesting level) and carry the source advance.  The post-processing IR written through Options.ir_dir is
-//! compared with the Coq model (FV.C12.Model.process) by per-case Gallina terms.
+//!
+//! Property predicate, evaluated directly on the binaries: every exported glyph, drawn with skrifa at
+//! every master location, is compared with the harness's own recursive resolution of the source glyph,
+//! rounded once (= what the fully decomposed build stores): same number of contours, matched one to one
+//! up to the start point, same on/off pattern, orientation free only for contours reached through a
+//! negative determinant, every point within one unit per nesting level; advance = rounded source advance.
+//! Failures are keyed by class: build failure/panic, missing glyph, advance, contour count, merged
+//! identical instances, structure, orientation, flatten overflow (DESIGN.md 6.9), rounding beyond one
+//! unit per level but inside the bound FV.C12.Props.quantisation_bound gives for the stored form,
+//! and anything beyond that bound.
+//!
+//! Correspondence: the IR the compiler leaves behind (Options.ir_dir: final glyph order, contours,
+//! components, advances) is compared with FV.C12.Model.process by one Gallina term per source and
+//! master location covering all option subsets that built (small outcomes point by point, large ones by
+//! contour lengths, coordinate sums and signed area; components and advances always in full).
 use fontdrasil::coords::NormalizedLocation;
 use fontir::orchestration::{Flags, WorkId as FeWorkId};
 use fontir::paths::Paths as FePaths;
@@ -161,14 +171,13 @@ fn det(t: &[f64; 6]) -> f64 {
 }
 
 /// Reference semantics of a source glyph at master k: own contours, then each component's resolved
-/// contours under the component transform.  `flipped` records a negative determinant on the way down.
+/// contours under the component transform.  `flipped` records a negative determinant anywhere on the way
+/// down: which levels are stored as components and which are decomposed (reversing the contour when the
+/// accumulated determinant is negative) depends on the options, so only then may the orientation differ.
 #[derive(Clone, Debug)]
 struct RC {
     pts: Contour,
     flipped: bool,
-    /// bound on |implementation - exact| the glyf format itself allows for this contour
-    /// (integer offsets, F2Dot14 2x2, integer leaf points), see FV.C12.Props.quantisation_bound
-    fmt_bound: f64,
 }
 fn resolve_ref(src: &Src, name: &str, k: usize, t: &[f64; 6], flipped: bool, out: &mut Vec<RC>, fuel: usize) {
     if fuel == 0 {
@@ -180,12 +189,11 @@ fn resolve_ref(src: &Src, name: &str, k: usize, t: &[f64; 6], flipped: bool, out
         out.push(RC {
             pts: c.iter().map(|p| { let (x, y) = apply(t, p.x, p.y); P { x, y, on: p.on } }).collect(),
             flipped,
-            fmt_bound: 0.0,
         });
     }
     for (b, x) in g.bases.iter().zip(m.xf.iter()) {
         let t2 = mul(t, x);
-        resolve_ref(src, b, k, &t2, flipped ^ (det(x) < 0.0), out, fuel - 1);
+        resolve_ref(src, b, k, &t2, flipped || det(x) < 0.0, out, fuel - 1);
     }
 }
 
@@ -198,7 +206,9 @@ fn format_bound(src: &Src, name: &str, k: usize, fuel: usize) -> (f64, f64) {
     }
     let Some(g) = src.g(name) else { return (0.0, 0.0) };
     let m = &g.m[k];
-    let mut err: f64 = 0.5;
+    // a stored point is the rounded master point; away from the default master gvar's IUP optimisation
+    // (tolerance 0.5) may move it by another half unit
+    let mut err: f64 = if k == 0 { 0.5 } else { 1.0 };
     let mut mx: f64 = 0.0;
     for c in &m.contours {
         for p in c {
@@ -559,8 +569,12 @@ fn match_contours(refc: &[RC], got: &[Contour], strict_orientation: bool) -> Opt
     let cost: Vec<Vec<Option<f64>>> = refc
         .iter()
         .map(|r| {
-            // the backend reverses every contour (TrueType direction) unless KEEP_DIRECTION is set
-            let mut e = explicit(&r.pts);
+            // What full decomposition stores: the exactly transformed points rounded once (ot_round), implied
+            // points taken between the rounded off-curve points; the backend reverses every contour
+            // (TrueType direction) unless KEEP_DIRECTION is set.  Comparing every build with this is comparing
+            // it with the fully decomposed build of the same source.
+            let rounded: Contour = r.pts.iter().map(|p| P { x: (p.x + 0.5).floor(), y: (p.y + 0.5).floor(), on: p.on }).collect();
+            let mut e = explicit(&rounded);
             e.reverse();
             got.iter().map(|g| cyc_dist(&e, g, !strict_orientation || r.flipped)).collect()
         })
@@ -672,7 +686,7 @@ fn norm_loc(src: &Src, k: usize) -> NormalizedLocation {
 /// closed subpaths of an IR path as cyclic point lists (the closing point is not repeated)
 fn ir_points(path: &kurbo::BezPath, out: &mut Vec<Vec<(f64, f64)>>) {
     let mut cur: Vec<(f64, f64)> = Vec::new();
-    let mut flush = |cur: &mut Vec<(f64, f64)>, out: &mut Vec<Vec<(f64, f64)>>| {
+    let flush = |cur: &mut Vec<(f64, f64)>, out: &mut Vec<Vec<(f64, f64)>>| {
         if cur.is_empty() {
             return;
         }
@@ -992,10 +1006,18 @@ fn run_source(src: &Src, with_model: bool) -> Vec<Value> {
                             }
                             let loose = match_contours(r, &d.contours, false);
                             let (key, what) = if r.len() != d.contours.len() {
-                                if flags.contains(Flags::DECOMPOSE_COMPONENTS) || true {
-                                    ("contour-count-differs-under-component-options", format!("{} contours, the source resolves to {}", d.contours.len(), r.len()))
+                                // fewer contours, every one of them a contour of the source and every source
+                                // contour present at least once: identical instances were merged
+                                let tolx = depth as f64 + 1e-3;
+                                let near = |a: &Contour, b: &Contour| cyc_dist(a, b, true).map(|x| x <= tolx).unwrap_or(false);
+                                let exp: Vec<Contour> = r.iter().map(|c| { let rounded: Contour = c.pts.iter().map(|p| P { x: (p.x + 0.5).floor(), y: (p.y + 0.5).floor(), on: p.on }).collect(); let mut e = explicit(&rounded); e.reverse(); e }).collect();
+                                let merged = d.contours.len() < r.len()
+                                    && d.contours.iter().all(|c| exp.iter().any(|e| near(e, c)))
+                                    && exp.iter().all(|e| d.contours.iter().any(|c| near(e, c)));
+                                if merged {
+                                    ("decompose-merges-identical-component-instances", format!("{} contours, the source resolves to {} (the missing ones coincide with contours that are present)", d.contours.len(), r.len()))
                                 } else {
-                                    unreachable!()
+                                    ("contour-count-differs-under-component-options", format!("{} contours, the source resolves to {}", d.contours.len(), r.len()))
                                 }
                             } else if loose.is_some() {
                                 ("contour-orientation-differs-without-flip", "a contour is reversed although no negative determinant is involved".to_string())
@@ -1010,19 +1032,28 @@ fn run_source(src: &Src, with_model: bool) -> Vec<Value> {
                         Some((dist, _)) => {
                             let e = stats.entry(format!("max_dist_depth{}", depth.min(5))).or_insert(0.0);
                             *e = e.max(dist);
-                            if dist > tol {
+                            let loose_ok = dist > tol && match_contours(r, &d.contours, false).map(|x| x.0 <= tol).unwrap_or(false);
+                            if loose_ok {
+                                let key = "contour-orientation-differs-without-flip";
+                                if seen_keys.insert(format!("{key}:{}", g.name)) {
+                                    viol(&mut out, key, format!("source {} ({}) options [{variant}] glyph '{}' master {k}: a contour is reversed although no negative determinant is involved", src.id, src.kind, g.name),
+                                         json!({"variant": variant, "glyph": g.name, "master": k}));
+                                }
+                            } else if dist > tol {
                                 let (fb, _) = format_bound(src, &g.name, k, 12);
                                 let ovf = composed_overflow(src, &g.name, k, &IDENT, 0, 12);
                                 let flat_only = flags.contains(Flags::FLATTEN_COMPONENTS) && !flags.contains(Flags::DECOMPOSE_COMPONENTS);
                                 let key = if ovf && flat_only {
                                     "flatten-composed-transform-exceeds-f2dot14"
-                                } else if dist <= fb + 0.5 + 1e-3 {
+                                } else if dist <= fb + 1.0 + 1e-3 {
+                                    // fb bounds |stored composite - exact|; the reference is the exact point rounded (1/2) and the
+                                    // rasteriser hands out rounded points (1/2)
                                     "rounding-exceeds-one-unit-per-level-within-format-bound"
                                 } else {
                                     "outline-differs-under-component-options"
                                 };
                                 if seen_keys.insert(format!("{key}:{}", g.name)) {
-                                    viol(&mut out, key, format!("source {} ({}) options [{variant}] glyph '{}' (nesting depth {depth}) master {k}: drawn outline is {dist:.4} units away from the resolved source outline (allowed {depth}; format bound {:.3})", src.id, src.kind, g.name, fb + 0.5),
+                                    viol(&mut out, key, format!("source {} ({}) options [{variant}] glyph '{}' (nesting depth {depth}) master {k}: drawn outline is {dist:.4} units away from the resolved source outline (allowed {depth}; format bound {:.3})", src.id, src.kind, g.name, fb + 1.0),
                                          json!({"variant": variant, "glyph": g.name, "master": k, "distance": dist, "depth": depth,
                                                 "drawn": d.contours.iter().map(|c| c.iter().map(|p| json!([p.x, p.y, p.on])).collect::<Vec<_>>()).collect::<Vec<_>>()}));
                                 }
@@ -1082,6 +1113,50 @@ fn run_source(src: &Src, with_model: bool) -> Vec<Value> {
     out
 }
 
+
+/// Two parents reach the same base under the same accumulated transform; with more than one master the
+/// `index` part of the visited key follows the iteration order of each glyph's own source map, so whether
+/// the two instances collide can differ from run to run.  Builds the same source repeatedly.
+fn hash_order_probe() -> Vec<Value> {
+    let mut out = Vec::new();
+    let two = |g: &G| {
+        let mut g = g.clone();
+        let mut m1 = g.m[0].clone();
+        for c in m1.contours.iter_mut() {
+            for p in c.iter_mut() {
+                p.x += 10.0;
+            }
+        }
+        g.m.push(m1.clone());
+        g.m.push(m1);
+        g
+    };
+    let base = fixed_sources().into_iter().find(|s| s.kind == "fixed:same-key-twice").unwrap();
+    let src = Src { id: 100000, kind: "probe:same-key-twice-2m".into(), pos: vec![0.0, 500.0, 1000.0], axis_default: 0.0, glyphs: base.glyphs.iter().map(two).collect(), order: base.order.clone() };
+    let dir = scratch_dir("c12p");
+    let path = src.design(false).write(dir.path());
+    let mut f = Flags::default();
+    f.insert(Flags::DECOMPOSE_COMPONENTS);
+    let mut counts: BTreeMap<Vec<usize>, usize> = BTreeMap::new();
+    let runs = 8;
+    for _ in 0..runs {
+        if let Outcome::Font(b) = compile_path(&path, Some(f), None) {
+            if let Ok(obs) = observe(&b, &src) {
+                if let Some(d) = obs.glyphs.get("d") {
+                    *counts.entry(d.iter().map(|x| x.contours.len()).collect()).or_default() += 1;
+                }
+            }
+        }
+    }
+    if counts.len() > 1 {
+        out.push(json!({"type":"violation","key":"decompose-result-depends-on-hash-order","found_input":true,
+            "desc": format!("the same three-master source (d = b + c, b = a, c = a, same transforms) built {runs} times with decompose-components gives glyph 'd' with per-master contour counts {counts:?}"),
+            "source": src.to_json(), "contour_counts": format!("{counts:?}")}));
+    }
+    out.push(json!({"type":"srcstat","builds":runs,"comparisons":0,"stats":{}}));
+    out
+}
+
 fn main() {
     let args: Vec<String> = std::env::args().collect();
     let args = &args[1..];
@@ -1117,6 +1192,11 @@ fn main() {
     for o in outs {
         for (i, v) in o {
             slots[i] = Some(v);
+        }
+    }
+    for l in hash_order_probe() {
+        if l["type"] != "srcstat" {
+            emit(l);
         }
     }
     let mut dist: BTreeMap<String, usize> = BTreeMap::new();
